@@ -103,9 +103,60 @@ def coq_make(targets=None):
         if rc != 0:
             raise BuildError('coq_makefile', out)
         open(stamp, 'w').write(listing)
-    cmd = ['make', '-k', '-j%d' % NPROC] + (targets or [])
+    if targets is None:
+        # everything except the property files: those are compiled by check_proofs of the property that owns them
+        # (one compilation whose Print Assumptions output is kept), not once here and once there
+        targets = [f + 'o' for f in files if not f.startswith('Properties/')]
+    cmd = ['make', '-k', '-j%d' % NPROC] + targets
     rc, out = sh(cmd, cwd=COQ, timeout=3000)
     return rc == 0, out
+
+def dev_key():
+    """content hash of every source file of the development (the compiled files are a function of it)"""
+    h = hashlib.sha256()
+    for f in coq_files():
+        h.update(f.encode()); h.update(hashlib.sha256(open(os.path.join(COQ, f), 'rb').read()).digest())
+    return h.hexdigest()
+
+def build_properties(rels):
+    """Compile the given property files (and whatever they need) through the Makefile, sequentially, and return
+    {file: compiler output (Print Assumptions)} -- from this compilation, or from an earlier one of the identical
+    development (same content hash of all sources).  Raises BuildError when one does not compile."""
+    key = dev_key()
+    odir = os.path.join(BUILD, 'propout'); os.makedirs(odir, exist_ok=True)
+    def cpath(rel): return os.path.join(odir, rel.replace('/', '_') + '.json')
+    def cached(rel):
+        try:
+            d = json.load(open(cpath(rel)))
+            if d['key'] == key and os.path.exists(os.path.join(COQ, rel + 'o')):
+                return d['out']
+        except Exception:
+            pass
+        return None
+    outs = {r: cached(r) for r in rels}
+    todo = [r for r in rels if outs[r] is None]
+    if todo:
+        for r in todo:
+            for ext in ('o', 'os', 'ok'):
+                try: os.remove(os.path.join(COQ, r + ext))
+                except OSError: pass
+        rc, out = sh(['make', '-j1'] + [r + 'o' for r in todo], cwd=COQ, timeout=6000)
+        # split the log at the COQC lines
+        seg, cur = {}, None
+        for l in out.split('\n'):
+            m = re.match(r'^COQC (\S+)', l)
+            if m:
+                cur = m.group(1); seg[cur] = ''
+            elif cur is not None:
+                seg[cur] += l + '\n'
+        if rc != 0:
+            raise BuildError('properties', out[-3000:])
+        for f, o in seg.items():
+            if f.startswith('Properties/'):
+                json.dump({'key': key, 'out': o}, open(cpath(f), 'w'))
+        for r in todo:
+            outs[r] = seg.get(r, '')
+    return outs
 
 def extract_model():
     odir = os.path.join(BUILD, 'ocaml')
@@ -223,10 +274,34 @@ def vm_crosscheck(family, cases, observed):
     return len(got), bad
 
 def coqchk(pid):
-    """Independent re-check of the compiled property file and everything it depends on; returns the axiom report."""
-    rc, out = sh(['coqchk', '-silent', '-o', '-Q', COQ, 'Ink', 'Ink.Properties.' + pid], cwd=COQ, timeout=3000)
+    """Independent re-check of the compiled property file(s) and everything they depend on; returns the axiom report.
+    The result is cached under the content hash of every compiled file of the development (a changed .vo anywhere
+    invalidates it).  A run that does not finish within the budget is reported as not completed, not as a rejection."""
+    import hashlib, glob as _glob
+    h = hashlib.sha256()
+    for f in sorted(_glob.glob(os.path.join(COQ, '**', '*.vo'), recursive=True)):
+        h.update(f.encode()); h.update(hashlib.sha256(open(f, 'rb').read()).digest())
+    mods = ['Ink.Properties.' + pid] + ['Ink.Properties.' + os.path.basename(q)[:-2]
+                                        for q in sorted(_glob.glob(os.path.join(COQ, 'Properties', pid + '_*.v')))]
+    key = pid + ':' + h.hexdigest()
+    cache_path = os.path.join(BUILD, 'coqchk_cache.json')
+    try:
+        cache = json.load(open(cache_path))
+    except Exception:
+        cache = {}
+    if key in cache:
+        return True, cache[key] + '\n(cached: identical compiled files were accepted by coqchk before)'
+    try:
+        rc, out = sh(['coqchk', '-silent', '-o', '-Q', COQ, 'Ink'] + mods, cwd=COQ, timeout=7200)
+    except subprocess.TimeoutExpired:
+        return None, 'coqchk did not finish within 7200 s'
     ax = out[out.find('CONTEXT SUMMARY'):] if 'CONTEXT SUMMARY' in out else out[-800:]
-    return rc == 0, ax.strip()[:1500]
+    ax = ax.strip()[:1500]
+    if rc == 0:
+        cache = {k: v for k, v in cache.items() if not k.startswith(pid + ':')}
+        cache[key] = ax
+        json.dump(cache, open(cache_path, 'w'))
+    return rc == 0, ax
 
 # ------------------------------------------------------------------ proofs
 def check_proofs(pid, coq_ok, coq_log):
@@ -254,14 +329,13 @@ def check_proofs(pid, coq_ok, coq_log):
         m = FORBIDDEN.search(body)
         if m:
             res['errors'].append('forbidden construct %r in %s' % (m.group(0), f))
-    out = ''
-    for q in paths:
-        rel = os.path.relpath(q, COQ)
-        rc, o = sh(['coqc', '-Q', '.', 'Ink', rel], cwd=COQ, timeout=3000)
-        if rc != 0:
-            res['errors'].append('%s does not compile: %s' % (rel, o[-1500:]))
-            return res
-        out += o
+    rels = [os.path.relpath(q, COQ) for q in paths]
+    try:
+        outs = build_properties(rels)
+    except BuildError as e:
+        res['errors'].append('%s do(es) not compile: %s' % (', '.join(rels), e.log[-1500:]))
+        return res
+    out = ''.join(outs[r] for r in rels)
     closed = out.count('Closed under the global context')
     ax = re.findall(r'^\s*(\w[\w.]*)\s*:', out[out.find('Axioms:'):], re.M) if 'Axioms:' in out else []
     res['axioms'] = sorted(set(ax))
@@ -389,6 +463,8 @@ def main():
             if not ok:
                 print(out[-6000:]); return 1
             extract_model()
+            if '--all-properties' in args:
+                build_properties([f for f in coq_files() if f.startswith('Properties/')])
         except BuildError as e:
             print('setup failed at %s:\n%s' % (e.stage, e.log)); return 1
         print('setup ok'); return 0
